@@ -127,6 +127,12 @@ def install(eng):
         n, body = args
         return one(st, View(n, lambda i: body.call(eng, st, [i], {}, node)[0][1], None, None, 'list'))
 
+    def method(name):
+        def deco(f):
+            B['method:' + name] = Fn(f, name)
+            return f
+        return deco
+
     # ------------------------------------------------ plain builtins
     @reg('len')
     def _len(eng, st, args, kw, node):
@@ -341,6 +347,23 @@ def install(eng):
         st.env['_psum'] = Fn(lambda eng2, s2, a2, k2, n2, _S=S: [(s2, _S(to_int(a2[0])))], '_psum')
         return one(st, S(to_int(v.length)))
 
+    class Opaque:
+        """A value the model does not track (sets of characters used only for log messages)."""
+        def __repr__(self):
+            return 'Opaque'
+    eng.Opaque = Opaque
+
+    def opaque_fn(name):
+        def f(eng, st, args, kw, node):
+            return one(st, Opaque())
+        B[name] = Fn(f, name)
+    for nm in ('set', 'frozenset', 'sorted', 'chr', 'repr', 'str', 'hex', 'ord'):
+        opaque_fn(nm)
+
+    @method('join')
+    def _join(eng, st, args, kw, node):
+        return one(st, z3.String(uid('join')))
+
     @reg('divmod')
     def _divmod(eng, st, args, kw, node):
         a, b = args
@@ -423,6 +446,174 @@ def install(eng):
         eng.trusted_used.add('slice.indices(n): CPython adjustment rules (PySlice_AdjustIndices), modelled in pyvc/builtins.py')
         return one(st, Tup([simp(start), simp(stop), simp(step)]))
 
+    # ------------------------------------------------ struct (trusted: big/little-endian integer packing)
+    import struct as _struct
+    import re as _re
+    IEEE32 = z3.Function('ieee32', z3.IntSort(), z3.RealSort())
+    IEEE64 = z3.Function('ieee64', z3.IntSort(), z3.RealSort())
+
+    def parse_fmt(fmt):
+        order = '>'
+        if fmt and fmt[0] in '<>!=@':
+            order = '>' if fmt[0] in '>!' else '<' if fmt[0] == '<' else fmt[0]
+            fmt = fmt[1:]
+        items = []
+        for cnt, code in _re.findall(r'(\d*)([a-zA-Z?])', fmt):
+            n = int(cnt) if cnt else 1
+            if code == 's':
+                items.append(('s', n))
+            elif code == 'x':
+                items.append(('x', n))
+            else:
+                items += [(code, 1)] * n
+        return order, items
+
+    SIZES = {'B': 1, 'b': 1, 'c': 1, 'H': 2, 'h': 2, 'I': 4, 'i': 4, 'L': 4, 'l': 4, 'Q': 8, 'q': 8, 'f': 4, 'd': 8, '?': 1}
+
+    def fmt_size(fmt):
+        order, items = parse_fmt(fmt)
+        return sum(n if c in 'sx' else SIZES[c] for c, n in items)
+
+    def do_unpack(eng, st, fmt, by, offset, node, exact=True):
+        if order_native(fmt):
+            raise Unsupported('native struct alignment %r' % fmt)
+        order, items = parse_fmt(fmt)
+        size = fmt_size(fmt)
+        bv = as_view(by)
+        if exact:
+            okc = num_cmp('==', bv.length, size)
+        else:
+            okc = num_cmp('>=', num_binop('-', bv.length, offset, Pending()), size)
+        st = eng.fork_exc(st, okc, 'struct.error', node)
+        if st.dead:
+            return []
+        eng.trusted_used.add('struct.unpack: big/little-endian two\'s-complement integers as documented (floats: uninterpreted ieee32/ieee64 of the bytes)')
+        out = []
+        pos = offset
+        for code, n in items:
+            if code == 'x':
+                pos = num_binop('+', pos, n, Pending())
+                continue
+            if code == 's':
+                out.append(v_slice(bv, pos, num_binop('+', pos, n, Pending())))
+                pos = num_binop('+', pos, n, Pending())
+                continue
+            k = SIZES[code]
+            bs = []
+            for j in range(k):
+                el = bv.get(simp(num_binop('+', pos, j, Pending())))
+                if is_z3(el) and not eng.pure:
+                    st.assume(z3.And(el >= 0, el <= 255))
+                bs.append(el)
+            if order == '<':
+                bs = bs[::-1]
+            val = 0
+            for b in bs:
+                val = num_binop('+', num_binop('*', val, 256, Pending()), b, Pending())
+            if code in 'bhilq':
+                lim = 1 << (8 * k - 1)
+                val = v_ite(simp(num_cmp('>=', val, lim)), num_binop('-', val, 2 * lim, Pending()), val)
+            elif code == 'f':
+                val = IEEE32(to_int(val))
+            elif code == 'd':
+                val = IEEE64(to_int(val))
+            elif code == 'c':
+                val = conc_seq_view([bs[0]], Byte, 'bytes')
+            elif code == '?':
+                val = simp(num_cmp('!=', val, 0))
+            elif code in 'BHILQ' and is_z3(val):
+                ops.set_bits(val, 8 * k, 0)
+            out.append(val)
+            pos = num_binop('+', pos, k, Pending())
+        return [(st, Tup(out))]
+
+    def order_native(fmt):
+        return not fmt or fmt[0] not in '<>!'
+
+    @reg('struct.unpack')
+    def _unpack(eng, st, args, kw, node):
+        fmt, by = args
+        if not isinstance(fmt, str):
+            raise Unsupported('symbolic struct format')
+        return do_unpack(eng, st, fmt, by, 0, node)
+
+    @reg('struct.unpack_from')
+    def _unpack_from(eng, st, args, kw, node):
+        fmt, by = args[0], args[1]
+        off = args[2] if len(args) > 2 else kw.get('offset', 0)
+        return do_unpack(eng, st, fmt, by, off, node, exact=False)
+
+    @reg('struct.calcsize')
+    def _calcsize(eng, st, args, kw, node):
+        return one(st, fmt_size(args[0]))
+
+    @reg('struct.Struct')
+    def _Struct(eng, st, args, kw, node):
+        return one(st, StructVal(args[0]))
+
+    @reg('struct.pack')
+    def _pack(eng, st, args, kw, node):
+        return do_pack(eng, st, args[0], args[1:], node)
+
+    def do_pack(eng, st, fmt, vals, node):
+        if order_native(fmt):
+            raise Unsupported('native struct alignment %r' % fmt)
+        order, items = parse_fmt(fmt)
+        eng.trusted_used.add('struct.pack: big/little-endian two\'s-complement integers as documented')
+        out = []
+        vi = 0
+        for code, n in items:
+            if code == 'x':
+                out += [0] * n
+                continue
+            v = vals[vi]
+            vi += 1
+            if code == 's':
+                vv = as_view(v)
+                for j in range(n):
+                    out.append(v_ite(simp(num_cmp('<', j, vv.length)), vv.get(j), 0))
+                continue
+            k = SIZES[code]
+            if code in 'fd':
+                raise Unsupported('struct.pack of floats')
+            if code in 'bhilq':
+                lo, hi = -(1 << (8 * k - 1)), (1 << (8 * k - 1)) - 1
+            else:
+                lo, hi = 0, (1 << (8 * k)) - 1
+            st = eng.fork_exc(st, b_and(num_cmp('>=', v, lo), num_cmp('<=', v, hi)), 'struct.error', node)
+            if st.dead:
+                return []
+            u = v_ite(simp(num_cmp('<', v, 0)), num_binop('+', v, 1 << (8 * k), Pending()), v)
+            bs = []
+            for j in range(k):
+                sh = 8 * (k - 1 - j)
+                bs.append(num_binop('%', num_binop('//', u, 1 << sh, Pending()), 256, Pending()))
+            if order == '<':
+                bs = bs[::-1]
+            out += bs
+        return [(st, conc_seq_view(out, Byte, 'bytes'))]
+
+    @method('unpack')
+    def _m_unpack(eng, st, args, kw, node):
+        sv = args[0]
+        if isinstance(sv, StructVal):
+            return do_unpack(eng, st, sv.fmt, args[1], 0, node)
+        raise Unsupported('.unpack on %r' % (sv,))
+
+    @method('unpack_from')
+    def _m_unpack_from(eng, st, args, kw, node):
+        sv = args[0]
+        off = args[2] if len(args) > 2 else kw.get('offset', 0)
+        return do_unpack(eng, st, sv.fmt, args[1], off, node, exact=False)
+
+    @method('pack')
+    def _m_pack(eng, st, args, kw, node):
+        return do_pack(eng, st, args[0].fmt, args[1:], node)
+
+    @method('size')
+    def _m_size(eng, st, args, kw, node):
+        raise Unsupported('size as method')
+
     # ------------------------------------------------ math
     @reg('math.ldexp')
     def _ldexp(eng, st, args, kw, node):
@@ -500,11 +691,6 @@ def install(eng):
     B['sys.float_info.epsilon'] = None
 
     # ------------------------------------------------ sequence methods
-    def method(name):
-        def deco(f):
-            B['method:' + name] = Fn(f, name)
-            return f
-        return deco
 
     @method('indices')
     def _indices(eng, st, args, kw, node):
